@@ -579,7 +579,7 @@ def keyframe_classifier_rule(prog, run):
 
 
 
-def builder_audio_table(prog, run, rule):
+def builder_audio_table(prog, run, rule, none_only=False):
     """`MuxerBuilder::build` tabulated by finite-domain interpretation of its MIR over the audio configuration
     {absent} + {None, Opus, Aac(6 profiles)} x 7 sample rates x 5 channel counts (video configured): build succeeds; the muxer has an
     audio track - with exactly the configured codec, rate and channel count - iff an audio codec other than `None` was configured;
@@ -606,6 +606,9 @@ def builder_audio_table(prog, run, rule):
     bad = None
     try:
         scen = [None] + [(c, r, ch) for c in codecs for r in (0, 1, 8000, 44100, 48000, 96000, 0xFFFFFFFF) for ch in (0, 1, 2, 8, 0xFFFF)]
+        if none_only:
+            # the borrowing property (C17) speaks only about `codec None == no audio call`
+            scen = [sc for sc in scen if sc is None or sc[0][0] == "None"]
         for sc in scen:
             calls = []
 
@@ -653,7 +656,7 @@ def builder_audio_table(prog, run, rule):
         return
     run.check(bad is None, rule, "builder audio table", "audio track <=> configured codec != None, with the configured rate / channels; writer enabled exactly then (%d configurations)" % n,
               "" if bad is None else "with %s: %s" % bad, mir.loc_of(u.bodies[bp[0]]))
-    run.floor(rule, n, 200, "builder configurations evaluated")
+    run.floor(rule, n, 30 if none_only else 200, "builder configurations evaluated")
 
 def check(prog, run):
     run.rule("R8", "ADTS acceptance table: for every value of every header field (others valid) and every short length, the validator's outcome (error kind / returned payload range) is the one the contract prescribes")
